@@ -104,6 +104,19 @@ class Translator:
                     if not arr:
                         raise TranslationError("zeros_like of a scalar")
                     return ("num", Fraction(0)), True
+            # other spellings of operators the IR already has
+            if (isinstance(f, ast.Attribute) and isinstance(f.value, ast.Name)
+                    and f.value.id == "np" and not node.keywords):
+                if f.attr == "power" and len(node.args) == 2:
+                    a, aa = self.expr(node.args[0], masked_by)
+                    b, ba = self.expr(node.args[1], masked_by)
+                    return ("pow", a, b), (aa or ba)
+                if f.attr == "square" and len(node.args) == 1:
+                    a, arr = self.expr(node.args[0], masked_by)
+                    return ("pow", a, ("num", Fraction(2))), arr
+                if f.attr in ("absolute", "fabs") and len(node.args) == 1:
+                    a, arr = self.expr(node.args[0], masked_by)
+                    return ("abs", a), arr
             raise TranslationError("call " + ast.dump(node.func))
         if isinstance(node, ast.Subscript):
             # array[mask] inside a masked assignment with the same mask
